@@ -512,20 +512,30 @@ def record_world(sd, root, n_sessions):
             out = w.path('fit')
             with fw.quiet():
                 fit(data, n_data_min=run['nmin'], output=out, output_format=conc_sel(run['sel'], unit), output_convolved=run['conv'], **w.fit_args())
-            if os.path.getsize(out) == 0:
-                tr.append({'ev': 'File', 'recs': [], 'meta': 1})
-                traces.append(tr)
-                continue
-            fin = FitInfoFile(out, 'r')
-            recs = list(fin)
-            meta = fin.meta
-            fin.close()
             line_of = []
             for i, sid in enumerate(lines):
                 if sid == 0:
                     break
                 if hdr['nd'][sid - 1] >= run['nmin']:
                     line_of.append(i)
+            if not line_of:
+                # no eligible source: C10 claims nothing about what such a run leaves behind (a zero-byte file, a header without
+                # records, ...) -- except that it holds no record, which is what the File event states
+                nrec = 0
+                if os.path.getsize(out) > 0:
+                    try:
+                        fin = FitInfoFile(out, 'r')
+                        nrec = len(list(fin))
+                        fin.close()
+                    except Exception:
+                        nrec = 0
+                tr.append({'ev': 'File', 'recs': [{'sid': 1, 'n': 0, 'pred': 0, 'eqobj': 0, 'line': 0}] * nrec, 'meta': 1})
+                traces.append(tr)
+                continue
+            fin = FitInfoFile(out, 'r')
+            recs = list(fin)
+            meta = fin.meta
+            fin.close()
             evrecs = []
             for k, r in enumerate(recs):
                 sid = sid_of(r.source.name)
